@@ -644,7 +644,7 @@ def shards(tier, seed):
             out.append({"model": name, "source": source, "part": "scipy", "cohort": cohort, "tier": tier, "seed": seed})
     # simplest first: small cohorts, sampling before optimisation
     order = [m for m, _ in model_sources(tier)]
-    out.sort(key=lambda s: (len(s.get("cohort", "xxx")), order.index(s["model"]), s["source"], s["part"] != "mcmc"))
+    out.sort(key=lambda s: (len(s.get("cohort", "xxx")), order.index(s["model"]), s["source"] != "loaded", s.get("cohort", []), s["part"] != "mcmc"))
     return out
 
 
